@@ -15,6 +15,7 @@ from ..evidence import Run
 from . import c04
 
 REQ = b"GET /x HTTP/1.1\r\nHost: h\r\n\r\n"
+REQ_CLOSE = b"GET /x HTTP/1.1\r\nHost: h\r\nConnection: close\r\n\r\n"
 HALF = 12
 
 
@@ -59,7 +60,7 @@ class Sim:
         env = self.env
         env.activate()
         kind = ev[0]
-        self.before = [(c["conn"].sock.closed, c["last_io"], c.get("busy_at"), c["opened"]) for c in self.conns]
+        self.before = [(c["conn"].sock.closed, c["last_io"], c.get("busy_at"), c["opened"], len(c["conn"].sock.out), bool(c["conn"].ch is not None and c["conn"].ch.will_close)) for c in self.conns]
         if kind == "connect":
             which = ev[1] if len(ev) > 1 else 0
             if which == 0:
@@ -72,7 +73,7 @@ class Sim:
                 self.listeners[1].backlog.append(sk)
                 c = seq.Conn(env, sk)
             self.conns.append(dict(conn=c, sent=0, last_io=self.W.now, mark=(0, 0), opened=self.W.now))
-        elif kind in ("partial", "complete", "reads", "stalls", "trickle"):
+        elif kind in ("partial", "complete", "closing", "reads", "stalls", "trickle"):
             if ev[1] >= len(self.conns):
                 return False
             c = self.conns[ev[1]]
@@ -89,6 +90,13 @@ class Sim:
                     c["sent"] = 0  # a new request on the same connection
                 sock.client_send(REQ[c["sent"] :])
                 c["sent"] = len(REQ)
+            elif kind == "closing":
+                # a whole request that asks for the connection to be closed after the response
+                if c["sent"] not in (0, len(REQ)):
+                    return False
+                sock.client_send(REQ_CLOSE)
+                c["sent"] = len(REQ)
+                c["closing"] = True  # the server will close this connection itself once that request is answered
             elif kind == "reads":
                 if sock.window is None:
                     return False
@@ -144,13 +152,17 @@ class Sim:
             if sock.closed:
                 if c.get("busy_at") == now and ev[0] == "tick":
                     self.viol.append(("busy-connection-closed", f"connection {i} closed while its request was in progress"))
-                if i < len(self.before) and not self.before[i][0]:
+                if i < len(self.before) and not self.before[i][0] and not c.get("closing"):
                     # closed by the server during this step: it must have been idle for channel_timeout
-                    was_closed, last_io, busy_at, opened = self.before[i]
+                    was_closed, last_io, busy_at, opened = self.before[i][:4]
                     active = max(last_io, busy_at or 0, opened)  # as of the beginning of this step
                     if now - active < cfg["timeout"]:
                         self.viol.append(("active-connection-reaped", f"connection {i} closed by the server although it moved data / was accepted only {now - active:.0f}s ago (channel_timeout={cfg['timeout']})"))
                 continue
+            if i < len(self.before) and self.before[i][5] and len(sock.out) > self.before[i][4]:
+                # marked for closing before this step, and the socket took bytes during it: the close is
+                # performed on exactly such a writable event
+                self.viol.append(("marked-connection-survives-writable-event", f"connection {i} was marked for closing, the peer then read {len(sock.out) - self.before[i][4]} bytes, and the connection is still open"))
             idle_since = max(c["last_io"], c.get("busy_at", 0), c["opened"])
             if now - idle_since > cfg["timeout"] + slack:
                 pend = ch.total_outbufs_len if ch is not None else 0
@@ -170,10 +182,10 @@ class Sim:
                 parts.append(("closed",))
                 continue
             if ch is None:
-                parts.append(("backlog", c["sent"], len(sock.inq)))
+                parts.append(("backlog", c["sent"], bool(c.get("closing")), len(sock.inq)))
                 continue
             parts.append((
-                "open", c["sent"], len(ch.requests), ch.request is not None, ch.will_close, ch.close_when_flushed, ch.total_outbufs_len, sock.window,
+                "open", c["sent"], bool(c.get("closing")), len(ch.requests), ch.request is not None, ch.will_close, ch.close_when_flushed, ch.total_outbufs_len, sock.window,
                 min(int(now - ch.last_activity), cap), min(int(now - c["last_io"]), cap), min(int(now - c.get("busy_at", -10 ** 9)), cap), len(sock.inq),
             ))
         nc = env.server.next_channel_cleanup - now
@@ -190,7 +202,7 @@ def alphabet(cfg, nconn):
     if cfg.get("listeners", 1) == 2:
         evs.append(("connect", 1))
     for i in range(nconn):
-        evs += [("partial", i), ("complete", i), ("reads", i), ("stalls", i), ("trickle", i)]
+        evs += [("partial", i), ("complete", i), ("closing", i), ("reads", i), ("stalls", i), ("trickle", i)]
     evs.append(("finish",))
     for d in sorted({1, cfg["cleanup"], cfg["timeout"], cfg["timeout"] + 1}):
         evs.append(("tick", d))
